@@ -4,7 +4,10 @@ package main
 import (
 	"fmt"
 	"os"
+	"os/signal"
+	"runtime/pprof"
 	"sort"
+	"syscall"
 )
 
 type checkFn func(args []string)
@@ -22,6 +25,13 @@ func main() {
 		sort.Strings(ids)
 		fmt.Fprintf(os.Stderr, "usage: vcheck <ID> [args]; ids: %v\n", ids)
 		os.Exit(2)
+	}
+	if p := os.Getenv("VERIF_CPUPROFILE"); p != "" {
+		f, _ := os.Create(p)
+		_ = pprof.StartCPUProfile(f)
+		ch := make(chan os.Signal, 1)
+		signal.Notify(ch, syscall.SIGTERM)
+		go func() { <-ch; pprof.StopCPUProfile(); f.Close(); os.Exit(9) }()
 	}
 	fn, ok := checks[os.Args[1]]
 	if !ok {
